@@ -265,6 +265,17 @@ def eval_text(t: str, spans, direct: bool):
                 bads.append(("span_str", t, a, b))
             if check_case("span_pos", t, a, b) is not None:
                 bads.append(("span_pos", t, a, b))
+    if direct:
+        # second pass: the utilities are functions of (text, offset) — asking again after the
+        # Span calls above (on an equal text value) must give the same answers
+        for p in range(n + 1):
+            t_eq = "".join(list(t))                       # an equal but distinct str object
+            lc2 = call(lambda: Position(t_eq, p).line_col())
+            lo2 = call(lambda: Position(t_eq, p).line_of())
+            if lc2 != spec_line_col(t, p):
+                bads.append(("line_col_after_lines", t, p, p))
+            if lo2 != spec_line_of(t, p):
+                bads.append(("line_of_after_lines", t, p, p))
     return reqs, ans, bads
 
 
@@ -346,10 +357,25 @@ def _rand_shard(args):
 
 # ---------------------------------------------------------------- main
 
+def history_case(t: str):
+    """run the engine's whole call sequence for one text (all offsets, all spans, second pass) and
+    report the first answer that differs from the formula: for failures that need earlier calls"""
+    _, _, bads = eval_text(t, all_spans(len(t)), True)
+    if not bads:
+        return None
+    k, _, a, b = bads[0]
+    return {"history_dependent": True, "first_failing_call": k, "offsets": [a, b],
+            "observed": "differs from the formula only after earlier Position/Span calls on an equal text",
+            "history": "for p in 0..len: line_col, line_of, Pair.line_col; for all a<=b: Span.lines, str, start/end_pos; then line_col/line_of again"}
+
+
 def replay(out: Outcome, payload: dict) -> None:
     use_repo()
     t = "".join(chr(c) for c in payload["text"])
-    bad = check_case(payload["kind"], t, payload["a"], payload["b"])
+    if payload.get("history_dependent"):
+        bad = history_case(t)
+    else:
+        bad = check_case(payload["kind"], t, payload["a"], payload["b"])
     out.coverage = {"explanation": "replay of one (text, offsets) case", "evaluations": 1,
                     "distinct_nontrivial": 2, "samples": [{k: payload[k] for k in ("kind", "text", "a", "b")}]}
     if bad:
@@ -410,17 +436,48 @@ def run(out: Outcome) -> None:
 
     # ---- verdict (DESIGN §5)
     by_kind: dict[tuple, tuple] = {}
+    hist: dict[str, tuple] = {}
     for c in sorted(set(concrete), key=lambda c: (len(c[1]), c[1], c[2], c[3])):
-        sig = signature(check_case(*c))
+        iso = None if c[0].endswith("_after_lines") else check_case(*c)
+        sig = signature(iso)
         if sig is not None:
             by_kind.setdefault((c[0], sig), c)
+        else:
+            hist.setdefault(c[0], c)        # fails only within the engine's call sequence
     reported = set()
+    if not by_kind:
+        for kind, (_, t, a, b) in sorted(hist.items())[:2]:
+            # shrink the text while the whole call sequence still shows a failure
+            changed = True
+            while changed:
+                changed = False
+                for i in range(len(t)):
+                    t2 = t[:i] + t[i + 1 :]
+                    if history_case(t2) is not None:
+                        t, changed = t2, True
+                        break
+            bad = history_case(t)
+            if bad is None:
+                continue
+            reported.add((kind, t, a, b))
+            out.violation({"kind": kind, "text": cps(t), "text_repr": repr(t), "a": a, "b": b, **bad, "seed": seed(),
+                           "command": "./check C14 --replay <this file>",
+                           "what": "a Position/Span utility gives an answer that differs from the property's formula "
+                                   "depending on earlier calls on an equal text"})
     for (kind, _), (_, t, a, b) in sorted(by_kind.items()):
         t2, a2, b2 = shrink(kind, t, a, b)
         if (kind, t2, a2, b2) in reported:
             continue
         reported.add((kind, t2, a2, b2))
         bad = check_case(kind, t2, a2, b2)
+        if bad is None:
+            t2, a2, b2 = t, a, b
+            bad = check_case(kind, t, a, b)
+        if bad is None:
+            # not reproducible as a single call: the answer depends on earlier calls on an equal text
+            bad = history_case(t)
+            if bad is None:
+                continue
         out.violation({"kind": kind, "text": cps(t2), "text_repr": repr(t2), "a": a2, "b": b2, **bad,
                        "shrunk_from": {"text": cps(t), "a": a, "b": b}, "seed": seed(),
                        "command": "./check C14 --replay <this file>",
